@@ -69,6 +69,8 @@ func flagsForbidden(f uint64) bool {
 // execC11 runs the case.
 func execC11(c C11Case, bound time.Duration) (facts map[string]bool, err error) {
 	bound *= WatchdogScale()
+	// (the bound grows with the work: megabytes of request parameters are read by the scripted peer in 4 KiB pieces)
+	bound += workAllowance(len(c.Params)+len(c.Reply), nil, false) * WatchdogScale()
 	facts = map[string]bool{}
 	var cliConn *varlink.Connection
 	var srv net.Conn
@@ -257,6 +259,9 @@ func execC11(c C11Case, bound time.Duration) (facts map[string]bool, err error) 
 		receive, serr = cliConn.Send(ctx, c.Method, params, c.Flags)
 	}
 	if serr != nil {
+		if isTimeoutErr(serr) {
+			return facts, fmt.Errorf("Send(%q, flags %#x, %d bytes of parameters) did not complete within %v although the peer was reading: %v", c.Method, c.Flags, len(c.Params), bound, serr)
+		}
 		return facts, fmt.Errorf("Send(%q, flags %#x) failed: %v", c.Method, c.Flags, serr)
 	}
 	so := <-reqCh
